@@ -68,7 +68,9 @@ func Scan(data string, loc SourceLoc, delims []string) (tokens []Token) {
 			}
 			trimRight := source[len(source)-len(delims[3])-1] == '-'
 			if m[6] > 0 {
-				tok.Args = data[m[6]:m[7]]
+				// the argument pattern consumes two characters at a time where the first one could begin the closing
+				// delimiter ("% " in {% tag 50% %}), so the blank before the delimiter can end up inside the match
+				tok.Args = strings.TrimRight(data[m[6]:m[7]], " \t\r\n\f")
 				// in a tag without arguments ({% name -%}) the argument pattern takes the trim hyphen: give it back
 				if hyphen := te - len(delims[3]) - 1; trimRight && m[7] > hyphen {
 					tok.Args = strings.TrimRight(data[m[6]:hyphen], " \t\r\n")
